@@ -8,10 +8,11 @@ pub fn check(tier: Tier) -> i32 {
     let mut rep = Report::new("C10", tier, "exploration");
     rep.rule = "every string of the listed scopes is parsed (iterator) with StrInput, BufferedInput and the harness's contract-conforming Input with capacities 8/16/64/128 in both raw-read flavours; the full observation (events with values, styles, anchors, tags, every span's index/line/col, error message and marker) must equal StrInput's. Non-trivial: more than the 4 frame events or an error; distinct: distinct (event-kind sentence, error message).".into();
     rep.assumptions = vec!["the harness Input implementation honours the Input contract (it panics where BufferedInput would)".into()];
-    let plan = plan(tier, 6, 8, 3, 4);
+    let plan = plan(tier, 6, 7, 3, 4);
     rep.mandatory_scopes = plan.spaces.len();
     let budget = Budget::new(wall_cap(tier));
     run_plan(&mut rep, &plan, &budget, |s, acc| c10_eval(s, acc));
+    run_long(&mut rep, tier, &budget, |s, acc| c10_eval(s, acc));
     rep.finish()
 }
 pub fn replay(case: &Value) -> Result<Acc, String> {
